@@ -338,7 +338,7 @@ def gen(seed, tier="quick", index=None):
         for _ in range(fr.choice((0, 1, 1, 2, 3))):
             faults.append({"site": fr.choice(seams.SITES), "k": fr.randrange(1, 12), "exc": fr.choice(seams.EXC_ALL)})
     return {"engine": ENGINE, "property": PID, "seed": seed, "anns": g.anns, "fns": fns, "history": hist, "kinds": kinds,
-            "faults": faults, "mode": "catalogue" if cat else "random"}
+            "faults": faults, "mode": "catalogue" if cat else "random", "keep_exc": rng(seed, "keepexc").random() < 0.4}
 
 
 # ------------------------------------------------------------------------------------------
@@ -449,6 +449,7 @@ def _variant(scn, plan):
         gc_point()  # temporaries of the clean battery (fresh annotation classes) must be gone before the history starts
         d.reset_faults(plan)
         outs = []
+        ctxsim.keep_exceptions(bool(scn.get("keep_exc")))  # the application holds on to what it caught (until after the probes)
         for i, op in enumerate(scn["history"]):
             outs.append(d.interp.exec_op(op, str(i)))
         fired = list(d.state.fired)
@@ -457,6 +458,7 @@ def _variant(scn, plan):
         seams.take_output()
         after = battery(d, scn)
     finally:
+        ctxsim.keep_exceptions(False)
         d.close()
     return clean, after, outs, fired, counts
 
